@@ -187,6 +187,18 @@ fn directive_lines() -> Vec<&'static str> {
     ]
 }
 
+/// macro definitions and uses: every sequence of 1-3 definition lines followed by one use line (complete in both tiers)
+fn macro_def_lines() -> Vec<&'static str> {
+    vec![
+        "#define ID(x) x", "#define A ID(A)", "#define B ID(C)", "#define C ID(B)", "#define A A", "#define A B", "#define B A", "#define F(x) F(x)", "#define F(x) G(x)", "#define G(x) F(x)", "#define P(x) x ## x", "#define Q(x, y) x ## y",
+        "#define A ID(ID(A))", "#define W(x) ID(x) ID", "#define A (A)", "#define E", "#define H() H", "#define A Q(A, A)",
+    ]
+}
+
+fn macro_use_lines() -> Vec<&'static str> {
+    vec!["A", "static const int A = 1;", "F(1)", "ID(A)", "ID(F(A))", "P(A)", "Q(A, B)", "W(1)(2)", "H()()", "B C", "#if A\n#endif", "#if ID(A)\n#endif"]
+}
+
 fn define_values() -> Vec<&'static str> {
     vec!["", "1", "0", "a", "A", "B", "1 + 2", "(", ")", "( (", "\"s", "\"s\"", "##", "#", "a ## b", "## a", "a ##", "/*", "//", "\\", "\n", "1\n#define C 2", "$", "\u{e9}", "99999999999999999999", "1.0p", "float", "if", "{", "}", ";", "<", ">", ",", "F(", "F(1)"]
 }
@@ -243,6 +255,8 @@ fn statement_programs() -> Vec<(String, String)> {
         "int a = 1; switch (a) { case 0: a = 2; break; case 1: case 2: a = 3; default: a = 4; }", "float4 v = float4(1, 2, 3, 4); float2 s = v.xy + v.zw; v.x = s.y;", "float arr[3] = { 1.0, 2.0, 3.0 }; arr[1] = arr[0] + arr[2];",
         "bool b = true && !false || 1 < 2; int t = b ? 1 : 2;", "uint u = 1u << 3u; u >>= 1u; u |= 4u; u &= ~1u; u ^= 2u;", "float f = (float)1 + (float)(2 + 3) * -(float)4;", "int n = sizeof(float4) + sizeof(int);", "[unroll] for (int j = 0; j < 2; ++j) { }",
         "float m = min(1.0, 2.0) + max(3.0, 4.0) + abs(-1.0) + clamp(0.5, 0.0, 1.0) + dot(float3(1,2,3), float3(4,5,6));", "return;",
+        // brace initialisers on scalars, vectors, arrays and nested aggregates (a deleted token leaves `{ }`, `{ , x }`, …)
+        "float bx = { 1.0 }; int by = { 1 }; float2 bv = { 1.0, 2.0 }; float ba[2] = { 1.0, 2.0 }; float bm[2][1] = { { 1.0 }, { 2.0 } }; static int bs = { 3 };",
     ];
     let mut v = Vec::new();
     for (i, s) in stmts.iter().enumerate() {
@@ -253,6 +267,7 @@ fn statement_programs() -> Vec<(String, String)> {
         "template<typename T> T id(T v) { return v; }\nfloat u() { return id<float>(1.0); }", "float f(float a, in float b, out float c, inout float d) { c = a; d += b; return a; }", "static const float k[2] = { 1.0, 2.0 };\ngroupshared float sh[64];",
         "cbuffer C : register(b1) { float a; float4 b; }\nfloat g() { return a + b.x; }", "typedef float4 vec4;\nvec4 g() { return vec4(1, 2, 3, 4); }", "[[rssl::bind_group(1)]] Texture2D t;\nSamplerState s;\nfloat4 g(float2 uv) { return t.Sample(s, uv); }",
         "struct P { float x; };\nConstantBuffer<P> cb : register(b2, space3);\nfloat g() { return cb.x; }",
+        "static int gx = { 1 };\nstatic const float gy = { 2.0 };\nstruct B { int a; float b; };\nstatic const B gb = { 1, 2.0 };\nint g() { return gx + gb.a; }",
     ];
     for (i, d) in decls.iter().enumerate() {
         v.push((format!("decl-{}", i), format!("{}\n", d)));
@@ -481,7 +496,7 @@ impl Spaces {
     }
 
     pub fn names(&self) -> Vec<&'static str> {
-        vec!["nesting", "soups", "defines", "extremes", "bytes2", "bytes_cls", "tokens", "tokens_cls", "directives", "mutants", "mutants_repo"]
+        vec!["nesting", "soups", "macros", "defines", "extremes", "bytes2", "bytes_cls", "tokens", "tokens_cls", "directives", "mutants", "mutants_repo"]
     }
 
     pub fn len(&self, space: &str) -> u64 {
@@ -496,6 +511,10 @@ impl Spaces {
             "tokens_cls" => 2 * (nc.pow(3) + if self.quick { 0 } else { nc.pow(4) / 4 }),
             "directives" => nd + nd * nd + if self.quick { nd * nd * nd / 16 } else { nd * nd * nd },
             "defines" => (define_values().len() * define_programs().len()) as u64 * 4,
+            "macros" => {
+                let n = macro_def_lines().len() as u64;
+                (n + n * n + n * n * n) * macro_use_lines().len() as u64
+            }
             "mutants" => if self.quick { self.mutants.total / 3 } else { self.mutants.total * 6 },
             "mutants_repo" => if self.quick { self.mutants_repo.total / 40 } else { self.mutants_repo.total },
             "extremes" => {
@@ -573,6 +592,23 @@ impl Spaces {
                 let mut c = Case::simple("directives", s, idx);
                 c.extra_files.push(("inc".to_string(), "#pragma once\n#define INC 1\nu;\n".to_string()));
                 c
+            }
+            "macros" => {
+                let defs = macro_def_lines();
+                let uses = macro_use_lines();
+                let n = defs.len() as u64;
+                let u = uses[(idx % uses.len() as u64) as usize];
+                let k = idx / uses.len() as u64;
+                let (len, kk) = if k < n { (1, k) } else if k < n + n * n { (2, k - n) } else { (3, k - n - n * n) };
+                decode(kk, &vec![n; len], &mut d);
+                let mut s = String::new();
+                for i in &d {
+                    s.push_str(defs[*i as usize]);
+                    s.push('\n');
+                }
+                s.push_str(u);
+                s.push('\n');
+                Case::simple("macro-programs", s, idx)
             }
             "defines" => {
                 let vals = define_values();
@@ -746,6 +782,7 @@ pub fn run(ctx: &Ctx) -> i32 {
             "nesting" => 1,
             "soups" => soup_counts().len() as u64,
             "defines" => 200,
+            "macros" => 500,
             "extremes" => 64,
             _ => 2_000,
         };
